@@ -10,6 +10,7 @@ pub mod vleaf;
 pub mod dialect_rt;
 pub mod util;
 
+mod c01_deadlock;
 mod c06_key;
 mod single;
 mod pz_poisonable;
@@ -28,3 +29,5 @@ mod gen_col;
 pub mod dia_faults;
 #[cfg(verif_dialect)]
 mod gen_dia;
+#[cfg(verif_dialect)]
+pub mod dia_user;
